@@ -1241,6 +1241,11 @@ theorem sbtVisit_conv (S : Schema) (ty : TypeId) (attrs : Attrs) (mf : Nat) (L0 
     (hnn : S.createNode ty attrs v.node.marks = .ok nn)
     (hstep : st1.step S (retypeStep (st1.mapFrom mf v.pos 1) (st1.mapFrom mf (v.pos + v.node.size) 1) nn)
       = .ok st2) :
+    st.mapFrom mf v.pos 1 = X.length + (v.pos - skip) ∧
+    st.tr.doc.nodeAt (X.length + (v.pos - skip)) = .ok (some v.node) ∧
+    st1.mapFrom mf v.pos 1 = X.length + (v.pos - skip) ∧
+    st1.mapFrom mf (v.pos + v.node.size) 1 =
+      X.length + (v.pos - skip) + 2 + fsize (retypedChildren S ty v.node.kids) ∧
     SbtInv L0 mf st2 (v.pos + v.node.size)
       (X ++ (L0.drop skip).take (v.pos - skip) ++ convToks S ty nn v.node.kids) := by
   obtain ⟨vn, vpos, vp, vi⟩ := v
@@ -1341,7 +1346,8 @@ theorem sbtVisit_conv (S : Schema) (ty : TypeId) (attrs : Attrs) (mf : Nat) (L0 
       convToks S ty (Node.elem ty a' (setFrom m) []) kids).length =
       X.length + (vpos - skip) + 2 + fsize (retypedChildren S ty kids) := by
     simp [convToks, hRC]; omega
-  refine ⟨htoks2, ?_, by rw [hf2, hf1], by rw [hm2, hm1]; simp; have := hI.mf_le; omega, hlen0, ?_⟩
+  refine ⟨hs0, hnode', hs1, he1,
+    htoks2, ?_, by rw [hf2, hf1], by rw [hm2, hm1]; simp; have := hI.mf_le; omega, hlen0, ?_⟩
   · intro p hp
     rw [hm2, List.drop_append_of_le_length (by rw [hm1]; simp; have := hI.mf_le; omega),
       mapsThrough_append, hmap1 p hp, hXlen]
@@ -1467,8 +1473,8 @@ theorem sbt_fold (S : Schema) (ty : TypeId) (attrs : Attrs) (mf : Nat) (L0 : Lis
                 | ok st2 =>
                   rw [hst] at h
                   simp only [Except.map] at h
-                  have hI2 := sbtVisit_conv S ty attrs mf L0 hty st st1 st2 skip X v nn hI (by omega)
-                    hv.1 hv.2.1 (hv.2.2 h2.1) hcl hnn hst
+                  have hI2 := (sbtVisit_conv S ty attrs mf L0 hty st st1 st2 skip X v nn hI (by omega)
+                    hv.1 hv.2.1 (hv.2.2 h2.1) hcl hnn hst).2.2.2.2
                   obtain ⟨X', hr, hI'⟩ := sbt_fold S ty attrs mf L0 hty vs st2 _ _ st' skip' hrest hI2 h
                   refine ⟨X', .conv v vs skip X skip' X' nn (by omega) h2.1 h2.2
                     ⟨st.tr.doc, hI.toks, ?_⟩ hnn hr, hI'⟩
